@@ -230,97 +230,6 @@ def run(ctx, chk):
                          "parameter_entries": sum(len(d["entries"]) for d in pa.values())})
 
 
-def bit64_low_first(f):
-    st = f["body"][1]
-    reads = []
-    for s in st:
-        if s[0] == "local" and s[1][0] == "p_ident" and s[3] is not None and "self.word()?" in show(s[3]):
-            reads.append(s[1][1])
-    if len(reads) != 2:
-        return False
-    last = st[-1][1]
-    if last[0] == "call" and path_of(last[1]) == "Ok":
-        last = last[2][0]
-    if not (last[0] == "binary" and last[1] == "|"):
-        return False
-    a, b = last[2], last[3]
-    if path_of(a) is not None:
-        a, b = b, a
-    return (a[0] == "binary" and a[1] == "<<" and path_of(a[2]) == reads[1] and int_of(a[3]) == 32 and path_of(b) == reads[0])
-
-
-def frame_shape(f):
-    res = f["sig"]["params"][1][0]
-    st = [show_stmt(s) for s in f["body"][1]]
-    body = f["body"][1]
-    # ordered events
-    ev = []
-    start = None
-    for s in body:
-        t = show_stmt(s)
-        if s[0] == "local" and show(s[3]) == "%s.len()" % res:
-            start = s[1][1]
-            ev.append("start")
-        elif t == "%s.push((self.class.opcode as u32));" % res:
-            ev.append("opcode")
-        elif s[0] == "expr" and s[1][0] == "if" and s[1][1][0] == "let":
-            src = show(s[1][1][2])
-            v = s[1][1][1][2][0][1] if s[1][1][1][0] == "p_ts" and s[1][1][1][1] == "Some" else None
-            inner = [show_stmt(x) for x in s[1][2][1]]
-            if inner == ["%s.push(%s);" % (res, v)] and src in ("self.result_type", "self.result_id"):
-                ev.append(src.split(".")[-1])
-            else:
-                return "unrecognised optional emission: %s" % t[:100]
-        elif s[0] == "expr" and s[1][0] == "for" and show(strip_refs(s[1][2])) == "self.operands":
-            v = s[1][1][1]
-            if [show_stmt(x) for x in s[1][3][1]] == ["%s.assemble_into(%s);" % (v, res)]:
-                ev.append("operands")
-            else:
-                return "operand loop does not assemble each operand once"
-        elif s[0] == "local" and start and show(s[3]) == "(%s.len() - %s)" % (res, start):
-            ev.append("count:" + s[1][1])
-        elif s[0] == "expr" and s[1][0] == "assignop" and s[1][1] == "|" and show(s[1][2]) == "%s[%s]" % (res, start):
-            rhs = s[1][3]
-            cnt = [e for e in ev if e.startswith("count:")]
-            if rhs[0] == "binary" and rhs[1] == "<<" and int_of(rhs[3]) == 16 and cnt and show(rhs[2]) == "(%s as u32)" % cnt[0][6:]:
-                ev.append("patch")
-            else:
-                return "word-count patch is %s" % show(rhs)
-        else:
-            return "unrecognised statement %s" % t[:100]
-    want = ["start", "opcode", "result_type", "result_id", "operands", "count", "patch"]
-    got = [e.split(":")[0] for e in ev]
-    if got != want:
-        return "emission order is %s, expected %s" % (got, want)
-    return None
-
-
-def assemble_str_shape(f):
-    s_name, res = f["sig"]["params"][0][0], f["sig"]["params"][1][0]
-    t = [show_stmt(s) for s in f["body"][1]]
-    txt = " ".join(t)
-    body = f["body"][1]
-    chunks = rem = last = None
-    for s in body:
-        if s[0] == "local" and s[1][0] == "p_ident":
-            i = show(s[3])
-            if i == "%s.as_bytes().chunks_exact(4)" % s_name:
-                chunks = s[1][1]
-            elif chunks and i == "%s.remainder()" % chunks:
-                rem = s[1][1]
-            elif i in ("[0; 4]", "[0u8; 4]") or (s[3][0] == "repeat" and int_of(s[3][1]) == 0 and int_of(s[3][2]) == 4):
-                last = s[1][1]
-    if not (chunks and rem and last):
-        return "missing chunks_exact(4) / remainder / zero-initialised 4-byte buffer"
-    if "%s[..%s.len()].copy_from_slice(%s);" % (last, rem, rem) not in t:
-        return "remainder is not copied to the front of the zeroed buffer"
-    ext = [i for i, x in enumerate(t) if x.startswith("%s.extend(%s.map(" % (res, chunks)) and "from_le_bytes" in x]
-    push = [i for i, x in enumerate(t) if x == "%s.push(u32::from_le_bytes(%s));" % (res, last)]
-    if len(ext) != 1 or len(push) != 1 or ext[0] > push[0]:
-        return "whole chunks must be emitted once, followed by exactly one unconditional final word"
-    return None
-
-
 def string_consumed_shape(f):
     for s in f["body"][1]:
         if s[0] == "local" and s[1][0] == "p_ident" and s[1][1] == "consumed_words":
